@@ -250,14 +250,24 @@ def cmd_find(r, p):
     return pre + ["%s %s" % (key, pat)]
 
 
+def num_str(r, v):
+    """decimal spelling of v as a user might type it: now and then with leading zeros (still decimal: 010 is ten)"""
+    k = r.random()
+    if k < 0.10:
+        return "0" * r.choice([1, 1, 2, 3]) + str(v)
+    if k < 0.12:
+        return "+" + str(v)
+    return str(v)
+
+
 def cmd_nav(r, p):
     k = r.random()
     if k < 0.22:
-        return ["%s %d" % (r.choice(["down", "d"]), nav_arg(r, p))]
+        return ["%s %s" % (r.choice(["down", "d"]), num_str(r, nav_arg(r, p)))]
     if k < 0.44:
-        return ["%s %d" % (r.choice(["up", "u"]), nav_arg(r, p))]
+        return ["%s %s" % (r.choice(["up", "u"]), num_str(r, nav_arg(r, p)))]
     if k < 0.62:
-        return ["%s %d" % (r.choice(["goto", "g"]), nav_arg(r, p))]
+        return ["%s %s" % (r.choice(["goto", "g"]), num_str(r, nav_arg(r, p)))]
     if k < 0.74:
         return [r.choice(["entrypoint", "entry"])]
     return cmd_find(r, p)
